@@ -71,15 +71,37 @@ func runC14(c *an.Ctx) {
 		dispFns = p.Funcs // Change is exported: sweep every dispatcher of the module
 	}
 	for _, fn := range dispFns {
+		// all loads of Type from the same Change object form one subject (the code
+		// may re-load c.Type for every comparison)
+		var groups [][]ssa.Value
 		for _, tl := range an.FieldReads(fn, fType) {
+			u, ok := tl.(*ssa.UnOp)
+			if !ok {
+				continue
+			}
+			_, b := an.FieldOf(u.X)
+			placed := false
+			for gi, g := range groups {
+				_, gb := an.FieldOf(g[0].(*ssa.UnOp).X)
+				if an.SameVal(gb, b) {
+					groups[gi] = append(groups[gi], tl)
+					placed = true
+				}
+			}
+			if !placed {
+				groups = append(groups, []ssa.Value{tl})
+			}
+		}
+		for _, grp := range groups {
+			tl := grp[0]
 			tin, ok := tl.(ssa.Instruction)
 			if !ok {
 				continue
 			}
-			al := an.Aliases(tl)
+			al := an.Aliases(grp...)
 			isT := func(v ssa.Value) bool { return al[v] }
 			// is it a dispatcher: compared against a constant somewhere?
-			if len(an.InfeasibleUnder(fn, isT, enum["Add"])) == 0 {
+			if len(an.InfeasibleUnderV(fn, isT, enum["Add"])) == 0 {
 				continue
 			}
 			nDisp++
@@ -90,7 +112,7 @@ func runC14(c *an.Ctx) {
 			}
 			isApplier := len(an.Calls(fn, mInsert, mRm)) > 0
 			for _, n := range names {
-				cut := an.InfeasibleUnder(fn, isT, enum[n])
+				cut := an.InfeasibleUnderV(fn, isT, enum[n])
 				reach := an.ReachSet(fn, tin, cut, map[ssa.Instruction]bool{tin: true})
 				var ins, rms, insVia, rmsVia []ssa.CallInstruction // direct editor calls / calls of package-local helpers that make them
 				panics := false
@@ -577,59 +599,146 @@ func c14ParamIndex(fn *ssa.Function, p *ssa.Parameter) int {
 
 // c14Side: which input node ("a"/"b") a value derives from, through the
 // node/link accessors; viaCopy reports whether it passes through Copy().
+// Values parked in fields of a local struct are followed field-sensitively,
+// and package-local helpers are followed with their parameters bound to the
+// actual arguments (e.g. `pair := linkPair{before: la, after: lb}; pair.nodes()`).
 func c14Side(v ssa.Value, pa, pb *ssa.Parameter, seen map[ssa.Value]bool) (string, bool) {
-	if v == nil || seen[v] {
+	ev := &c14SideEval{pa: pa, pb: pb}
+	return ev.side(v, nil, seen, 0)
+}
+
+type c14Bound struct {
+	val ssa.Value
+	env map[*ssa.Parameter]c14Bound
+}
+
+type c14SideEval struct{ pa, pb *ssa.Parameter }
+
+func (ev *c14SideEval) merge(vs []ssa.Value, env map[*ssa.Parameter]c14Bound, seen map[ssa.Value]bool, d int) (string, bool) {
+	s, cp, first := "", false, true
+	for _, x := range vs {
+		if _, isK := x.(*ssa.Const); isK {
+			continue
+		}
+		if seen[x] {
+			continue
+		}
+		xs, xc := ev.side(x, env, seen, d+1)
+		if first {
+			s, cp, first = xs, xc, false
+		} else if xs != s {
+			return "?", false
+		} else {
+			cp = cp && xc
+		}
+	}
+	return s, cp
+}
+
+// structCell resolves the struct object behind a field access: a local struct
+// cell with field stores, or the caller's cell when the struct arrived by value
+// through a bound parameter.
+func (ev *c14SideEval) structCell(base ssa.Value, env map[*ssa.Parameter]c14Bound, d int) (*ssa.Alloc, map[*ssa.Parameter]c14Bound, bool) {
+	if d > 6 {
+		return nil, nil, false
+	}
+	switch x := base.(type) {
+	case *ssa.Alloc:
+		hasField := false
+		var whole []ssa.Value
+		for _, r := range *x.Referrers() {
+			switch y := r.(type) {
+			case *ssa.FieldAddr:
+				for _, r2 := range *y.Referrers() {
+					if st, ok := r2.(*ssa.Store); ok && st.Addr == ssa.Value(y) {
+						hasField = true
+					}
+				}
+			case *ssa.Store:
+				if y.Addr == ssa.Value(x) {
+					whole = append(whole, y.Val)
+				}
+			}
+		}
+		if hasField && len(whole) == 0 {
+			return x, env, true
+		}
+		if len(whole) == 1 {
+			return ev.structCell(whole[0], env, d+1)
+		}
+	case *ssa.UnOp:
+		if x.Op == token.MUL {
+			return ev.structCell(x.X, env, d+1)
+		}
+	case *ssa.Parameter:
+		if b, ok := env[x]; ok {
+			return ev.structCell(b.val, b.env, d+1)
+		}
+	}
+	return nil, nil, false
+}
+
+func (ev *c14SideEval) side(v ssa.Value, env map[*ssa.Parameter]c14Bound, seen map[ssa.Value]bool, d int) (string, bool) {
+	if v == nil || seen[v] || d > 40 {
 		return "", false
 	}
 	seen[v] = true
-	merge := func(vs ...ssa.Value) (string, bool) {
-		s, cp, first := "", false, true
-		for _, x := range vs {
-			if _, isK := x.(*ssa.Const); isK {
-				continue
-			}
-			if seen[x] {
-				continue
-			}
-			xs, xc := c14Side(x, pa, pb, seen)
-			if first {
-				s, cp, first = xs, xc, false
-			} else if xs != s {
-				return "?", false
-			} else {
-				cp = cp && xc
+	fieldOf := func(base ssa.Value, field int) (string, bool, bool) {
+		if cell, cenv, ok := ev.structCell(base, env, 0); ok {
+			vals, whole := an.LocalFieldStores(cell, field)
+			if !whole && len(vals) > 0 {
+				s, c := ev.merge(vals, cenv, seen, d)
+				return s, c, true
 			}
 		}
-		return s, cp
+		return "", false, false
 	}
 	switch x := v.(type) {
 	case *ssa.Parameter:
 		switch x {
-		case pa:
+		case ev.pa:
 			return "a", false
-		case pb:
+		case ev.pb:
 			return "b", false
+		}
+		if b, ok := env[x]; ok {
+			return ev.side(b.val, b.env, seen, d+1)
 		}
 		return "?", false
 	case *ssa.Call:
 		r := an.Recv(x)
-		if r == nil {
-			return "?", false
-		}
 		switch an.Callee(x).Name {
 		case "Copy":
-			s, _ := c14Side(r, pa, pb, seen)
-			return s, true
+			if r != nil {
+				s, _ := ev.side(r, env, seen, d+1)
+				return s, true
+			}
 		case "Links", "Cid", "ResolveLink", "GetNode", "RawData", "String":
-			return c14Side(r, pa, pb, seen)
+			if r != nil {
+				return ev.side(r, env, seen, d+1)
+			}
 		}
-		return "?", false
+		return ev.viaHelper(x, 0, env, seen, d)
 	case *ssa.Extract:
-		return c14Side(x.Tuple, pa, pb, seen)
+		if call, ok := x.Tuple.(*ssa.Call); ok {
+			switch an.Callee(call).Name {
+			case "Copy", "Links", "Cid", "ResolveLink", "GetNode", "RawData", "String":
+			default:
+				if h := call.Common().StaticCallee(); h != nil && len(h.Blocks) > 0 {
+					return ev.viaHelper(call, x.Index, env, seen, d)
+				}
+			}
+		}
+		return ev.side(x.Tuple, env, seen, d+1)
 	case *ssa.TypeAssert:
-		return c14Side(x.X, pa, pb, seen)
+		return ev.side(x.X, env, seen, d+1)
 	case *ssa.UnOp:
 		if x.Op == token.MUL {
+			if fa, ok := x.X.(*ssa.FieldAddr); ok {
+				if s, c, ok := fieldOf(fa.X, fa.Field); ok {
+					return s, c
+				}
+			}
 			if al, ok := x.X.(*ssa.Alloc); ok {
 				var vals []ssa.Value
 				for _, r := range *al.Referrers() {
@@ -637,28 +746,60 @@ func c14Side(v ssa.Value, pa, pb *ssa.Parameter, seen map[ssa.Value]bool) (strin
 						vals = append(vals, st.Val)
 					}
 				}
-				return merge(vals...)
+				return ev.merge(vals, env, seen, d)
 			}
-			return c14Side(x.X, pa, pb, seen)
+			return ev.side(x.X, env, seen, d+1)
 		}
 	case *ssa.IndexAddr:
-		return c14Side(x.X, pa, pb, seen)
+		return ev.side(x.X, env, seen, d+1)
 	case *ssa.FieldAddr:
-		return c14Side(x.X, pa, pb, seen)
+		if s, c, ok := fieldOf(x.X, x.Field); ok {
+			return s, c
+		}
+		return ev.side(x.X, env, seen, d+1)
 	case *ssa.Field:
-		return c14Side(x.X, pa, pb, seen)
+		if s, c, ok := fieldOf(x.X, x.Field); ok {
+			return s, c
+		}
+		return ev.side(x.X, env, seen, d+1)
 	case *ssa.Slice:
-		return c14Side(x.X, pa, pb, seen)
+		return ev.side(x.X, env, seen, d+1)
 	case *ssa.ChangeType:
-		return c14Side(x.X, pa, pb, seen)
+		return ev.side(x.X, env, seen, d+1)
 	case *ssa.MakeInterface:
-		return c14Side(x.X, pa, pb, seen)
+		return ev.side(x.X, env, seen, d+1)
 	case *ssa.ChangeInterface:
-		return c14Side(x.X, pa, pb, seen)
+		return ev.side(x.X, env, seen, d+1)
 	case *ssa.Phi:
-		return merge(x.Edges...)
+		return ev.merge(x.Edges, env, seen, d)
 	}
 	return "?", false
+}
+
+// viaHelper: result #idx of a call of a function with a body (a helper of the
+// tree): the side of what the helper returns there, parameters bound to the
+// actual arguments.
+func (ev *c14SideEval) viaHelper(call *ssa.Call, idx int, env map[*ssa.Parameter]c14Bound, seen map[ssa.Value]bool, d int) (string, bool) {
+	h := call.Common().StaticCallee()
+	if h == nil || len(h.Blocks) == 0 || d > 20 {
+		return "?", false
+	}
+	nenv := map[*ssa.Parameter]c14Bound{}
+	for i, hp := range h.Params {
+		if i < len(call.Call.Args) {
+			nenv[hp] = c14Bound{call.Call.Args[i], env}
+		}
+	}
+	var vals []ssa.Value
+	for _, r := range an.Returns(h) {
+		if idx < len(r.Results) {
+			vals = append(vals, r.Results[idx])
+		}
+	}
+	if len(vals) == 0 {
+		return "?", false
+	}
+	return ev.merge(vals, nenv, map[ssa.Value]bool{}, d+1)
 }
 
 // c14VarargInOrder returns the elements of a call-site variadic slice in index order.
